@@ -367,6 +367,66 @@ theorem save_reload_check (p : Prims) (t : Table) (q : Name) (k : Key) :
   unfold check
   rw [h]
 
+/-! ## dict-style setters take effect — in memory and, by `save_reload_lookup`, after save + reload -/
+
+private theorem subSetGo_spec (p : Prims) (q : Name) (kt : String) (k : Key) (hk : k.type = kt) (t : Table) :
+    ((subSetGo p q kt k t).2 = true → subGet (lookup p (subSetGo p q kt k t).1 q) kt = some k) ∧
+    ((subSetGo p q kt k t).2 = false → (subSetGo p q kt k t).1 = t ∧ subGet (lookup p t q) kt = none) := by
+  induction t with
+  | nil => simp [subSetGo, lookup, subGet]
+  | cons e es ih =>
+    simp only [subSetGo]
+    by_cases hc : (hostnameMatches p q e && e.key.type == kt) = true
+    · simp only [hc, if_true, Bool.true_eq_false, false_implies, and_true, true_implies]
+      simp only [Bool.and_eq_true] at hc
+      have hm : hostnameMatches p q { e with key := k } = true := hc.1
+      simp [lookup, List.filter_cons, hm, subGet, hk]
+    · simp only [hc, Bool.false_eq_true, if_false]
+      have hskip : hostnameMatches p q e = true → (e.key.type == kt) = false := by
+        intro hm
+        simp only [hm, Bool.true_and] at hc
+        simpa using hc
+      constructor
+      · intro h2
+        have := ih.1 h2
+        by_cases hm : hostnameMatches p q e = true
+        · simp only [lookup, List.filter_cons, hm, if_true, subGet, List.find?_cons, hskip hm]
+          exact this
+        · simp only [lookup, List.filter_cons, hm, Bool.false_eq_true, if_false]
+          exact this
+      · intro h2
+        obtain ⟨h3, h4⟩ := ih.2 h2
+        refine ⟨by rw [h3], ?_⟩
+        by_cases hm : hostnameMatches p q e = true
+        · simp only [lookup, List.filter_cons, hm, if_true, subGet, List.find?_cons, hskip hm]
+          exact h4
+        · simp only [lookup, List.filter_cons, hm, Bool.false_eq_true, if_false]
+          exact h4
+
+/-- **`hostkeys[name][type] = key` takes effect**: afterwards the effective key of that type for `name` is `key`
+(and, by `save_reload_lookup`, it still is after saving and reloading) -/
+theorem subSet_effective (p : Prims) (t t' : Table) (q : Name) (k : Key)
+    (h : subSet p t q k.type k = .ok t') :
+    subGet (lookup p t' q) k.type = some k ∧
+    subGet (lookup p (load p [] (save t')).1 q) k.type = some k := by
+  have hmain : subGet (lookup p t' q) k.type = some k := by
+    unfold subSet at h
+    split at h
+    · cases h
+    · obtain ⟨g1, g2⟩ := subSetGo_spec p q k.type k rfl t
+      simp only at h
+      split at h
+      · rename_i hr
+        simp only [Except.ok.injEq] at h
+        rw [← h]; exact g1 hr
+      · rename_i hr
+        have hr' : (subSetGo p q k.type k t).2 = false := by simpa using hr
+        simp only [Except.ok.injEq] at h
+        rw [← h, lookup_append, subGet_append, (g2 hr').2]
+        have : hostnameMatches p q ⟨[q], k⟩ = true := by simp [hostnameMatches, nameMatches_refl]
+        simp [lookup, this, subGet]
+  exact ⟨hmain, by rw [(save_reload_lookup p t' q k.type).1]; exact hmain⟩
+
 /-! ## non-vacuity -/
 
 def demoPrims : Prims := { hmac := fun salt s => salt ++ s.toList.map (fun c => UInt8.ofNat c.toNat) }
